@@ -3,9 +3,9 @@ import PyxisVerif.Lemmas.Lexer
 namespace PyxisVerif
 namespace C18
 open Lex (K Delim Tok Pos)
-open Print (digitsLE digitChar)
+open Print (digitsLE digitChar Base)
 
-open Print (digitsLE digitChar)
+open Print (digitsLE digitChar Base)
 
 /-! # character-level round trip: lexing the canonical text gives the tokens back -/
 
@@ -107,7 +107,7 @@ theorem lexLeaf_ident (c : Char) (w rest : List Char) (hc : Lex.isIdStart c = tr
   simp only [List.cons_append] at hl hp ⊢
   simp only [Lex.lexLeaf, h1, h2, h3, h4, hc, if_false, if_true, Bool.false_eq_true, hp, hl]
 
-open Print (digitsLE digitChar)
+open Print (digitsLE digitChar Base)
 
 /-! ## punctuation -/
 
@@ -155,6 +155,752 @@ theorem punctNext_okPunct {c : Char} (h : okPunct c = true) (rest : List Char) :
   · rename_i heq; simp only [List.cons.injEq] at heq; exact absurd heq.1 h5
   · rename_i heq; simp only [List.cons.injEq] at heq; rw [← heq.1]; exact h4
   · rename_i heq; cases heq
+
+open Print (digitsLE digitChar Base)
+
+/-! ## strings -/
+
+theorem cooked_plain (c : Char) (h1 : c ≠ '"') (h2 : c ≠ '\r') (h3 : c ≠ '\\') (f : Nat)
+    (r acc : List Char) :
+    Lex.cooked .str (f + 1) (c :: r) acc = Lex.cooked .str f r (c :: acc) := by
+  rw [Lex.cooked]
+  simp [h1, h2, h3]
+
+theorem cooked_bs (f : Nat) (r acc : List Char) :
+    Lex.cooked .str (f + 1) ('\\' :: r) acc =
+      match Lex.escape .str f r with
+      | some (some ch, r') => Lex.cooked .str f r' (ch :: acc)
+      | some (none, r') => Lex.cooked .str f r' acc
+      | none => none := by
+  rw [Lex.cooked]
+  simp only [show ('\\' == '"') = false from rfl, show ('\\' == '\r') = false from rfl,
+    show ('\\' == '\\') = true from rfl, Bool.false_eq_true, if_false, if_true]
+  cases Lex.escape .str f r with
+  | none => rfl
+  | some p =>
+    obtain ⟨o, r'⟩ := p
+    cases o <;> rfl
+
+theorem cooked_esc (s : List Char) (tail acc : List Char) (f : Nat) (hf : s.length + 1 ≤ f) :
+    Lex.cooked .str f (s.flatMap Print.escChar ++ '"' :: tail) acc = some (acc.reverse ++ s, tail) := by
+  induction s generalizing acc f with
+  | nil =>
+    obtain ⟨f, rfl⟩ : ∃ g, f = g + 1 := ⟨f - 1, by omega⟩
+    simp [Lex.cooked]
+  | cons c s ih =>
+    obtain ⟨f, rfl⟩ : ∃ g, f = g + 1 := ⟨f - 1, by omega⟩
+    have ih' := fun acc' => ih acc' f (by simp at hf; omega)
+    simp only [List.flatMap_cons, List.append_assoc]
+    by_cases h1 : c = '"'
+    · subst h1
+      rw [show Print.escChar '"' = ['\\', '"'] from rfl]
+      simp only [List.cons_append, List.nil_append]
+      rw [cooked_bs]
+      simp [Lex.escape, ih']
+    · by_cases h2 : c = '\\'
+      · subst h2
+        rw [show Print.escChar '\\' = ['\\', '\\'] from rfl]
+        simp only [List.cons_append, List.nil_append]
+        rw [cooked_bs]
+        simp [Lex.escape, ih']
+      · by_cases h3 : c = '\n'
+        · subst h3
+          rw [show Print.escChar '\n' = ['\\', 'n'] from rfl]
+          simp only [List.cons_append, List.nil_append]
+          rw [cooked_bs]
+          simp [Lex.escape, ih']
+        · by_cases h4 : c = '\r'
+          · subst h4
+            rw [show Print.escChar '\r' = ['\\', 'r'] from rfl]
+            simp only [List.cons_append, List.nil_append]
+            rw [cooked_bs]
+            simp [Lex.escape, ih']
+          · by_cases h5 : c = '\t'
+            · subst h5
+              rw [show Print.escChar '\t' = ['\\', 't'] from rfl]
+              simp only [List.cons_append, List.nil_append]
+              rw [cooked_bs]
+              simp [Lex.escape, ih']
+            · by_cases h6 : c = '\x00'
+              · subst h6
+                rw [show Print.escChar '\x00' = ['\\', '0'] from rfl]
+                simp only [List.cons_append, List.nil_append]
+                rw [cooked_bs]
+                simp [Lex.escape, ih']
+              · simp only [Print.escChar, h1, h2, h3, h4, h5, h6, if_false, List.cons_append,
+                  List.nil_append]
+                rw [cooked_plain c h1 h4 h2, ih']
+                simp
+
+open Print (digitsLE digitChar Base)
+
+theorem length_esc_ge (s : List Char) : s.length ≤ (s.flatMap Print.escChar).length := by
+  induction s with
+  | nil => simp
+  | cons c s ih =>
+    have : 1 ≤ (Print.escChar c).length := by
+      unfold Print.escChar
+      repeat (first | split | simp)
+    simp only [List.flatMap_cons, List.length_append, List.length_cons]
+    omega
+
+theorem dropSuffix_space (rest : List Char) : Lex.dropSuffix (' ' :: rest) = ' ' :: rest := by
+  simp [Lex.dropSuffix, Lex.isIdStart]
+
+theorem lexLeaf_str (s : List Char) (rest : List Char) :
+    Lex.lexLeaf (Print.spellStr s ++ ' ' :: rest) = some (.str (String.ofList s), ' ' :: rest) := by
+  have hc := cooked_esc s (' ' :: rest) []
+    ((s.flatMap Print.escChar ++ '"' :: ' ' :: rest).length + 1)
+    (by have := length_esc_ge s; simp only [List.length_append, List.length_cons]; omega)
+  simp only [Print.spellStr, List.cons_append, List.append_assoc, List.nil_append]
+  rw [Lex.lexLeaf]
+  simp only [if_true]
+  rw [hc]
+  simp [Lex.strTok, dropSuffix_space]
+
+/-! ## white space and delimiters -/
+
+theorem lexCore_space (f : Nat) (r : List Char) (st : List (Delim × Nat)) :
+    Lex.lexCore (f + 1) (' ' :: r) st = Lex.lexCore f r st := by
+  rw [Lex.lexCore]
+  simp [show Lex.isWs ' ' = true from by decide]
+
+theorem lexCore_open (d : Delim) (f : Nat) (r : List Char) (st : List (Delim × Nat)) :
+    Lex.lexCore (f + 1) (Print.openCh d :: ' ' :: r) st =
+      (Lex.lexCore f (' ' :: r) ((d, r.length + 2) :: st)).map ((K.op d, r.length + 2) :: ·) := by
+  rw [Lex.lexCore]
+  cases d <;>
+    simp [Print.openCh, show Lex.isWs '(' = false from by decide,
+      show Lex.isWs '[' = false from by decide, show Lex.isWs '{' = false from by decide,
+      Lex.scanSlash, Lex.delimOpen, Lex.isERROR, List.isPrefixOf]
+
+theorem lexCore_close (d : Delim) (f : Nat) (r : List Char) (n : Nat) (st : List (Delim × Nat)) :
+    Lex.lexCore (f + 1) (Print.closeCh d :: r) ((d, n) :: st) =
+      (Lex.lexCore f r st).map ((K.cl d, r.length + 1) :: ·) := by
+  rw [Lex.lexCore]
+  cases d <;>
+    simp [Print.closeCh, show Lex.isWs ')' = false from by decide,
+      show Lex.isWs ']' = false from by decide, show Lex.isWs '}' = false from by decide,
+      Lex.scanSlash, Lex.delimOpen, Lex.delimClose]
+
+open Print (digitsLE digitChar Base)
+
+/-! ## the token stream of a rendered token list -/
+
+/-- what the character-level proof needs of a token list: every identifier is plain, every
+    punctuation character is one the printer uses, a `joint` punct is followed by a punct,
+    there is no `lit`, and the delimiters are balanced against the stack -/
+def nextPunct : List K → Bool
+  | .punct c _ :: _ => okPunct c
+  | _ => false
+
+def chk : List Delim → List K → Option (List Delim)
+  | st, [] => some st
+  | st, k :: ks =>
+    match k with
+    | .op d => chk (d :: st) ks
+    | .cl d =>
+      match st with
+      | d' :: st0 => if d' = d then chk st0 ks else none
+      | [] => none
+    | .punct c j => if okPunct c && (!j || nextPunct ks) then chk st ks else none
+    | .ident s => if plainId s then chk st ks else none
+    | .int _ => chk st ks
+    | .str _ => chk st ks
+    | .lit => none
+
+/-- the number of `lexCore` iterations the rendering of `ks` takes -/
+def steps : List K → Nat
+  | [] => 0
+  | k :: ks => 1 + (Print.sepAfter k).length + steps ks
+
+theorem map_cons_map {α ε : Type} (a : α) (l : List α) (x : Except ε (List α)) :
+    Except.map (a :: ·) (Except.map (l ++ ·) x) = Except.map ((a :: l) ++ ·) x := by
+  cases x <;> rfl
+
+theorem map_nil_append {α ε : Type} (x : Except ε (List α)) :
+    x = Except.map (([] : List α) ++ ·) x := by
+  cases x <;> rfl
+
+theorem intTail_space (rest : List Char) : IntTail (' ' :: rest) := by
+  simp only [IntTail]; exact ⟨by decide, by decide⟩
+
+theorem lexCore_render (ks : List K) :
+    ∀ (st : List (Delim × Nat)) (st' : List Delim) (tail : List Char) (f : Nat),
+      chk (st.map (·.1)) ks = some st' →
+      ∃ (toks : List (K × Nat)) (st2 : List (Delim × Nat)),
+        toks.map (·.1) = ks ∧ st2.map (·.1) = st' ∧
+        Lex.lexCore (steps ks + f) (Print.renderCanon ks ++ tail) st
+          = (Lex.lexCore f tail st2).map (toks ++ ·) := by
+  induction ks with
+  | nil =>
+    intro st st' tail f h
+    simp only [chk, Option.some.injEq] at h
+    exact ⟨[], st, rfl, h, by simpa [steps, Print.renderCanon] using map_nil_append _⟩
+  | cons k ks ih =>
+    intro st st' tail f h
+    cases k with
+    | lit => simp [chk] at h
+    | ident s =>
+      simp only [chk] at h
+      split at h
+      · rename_i hp
+        obtain ⟨toks, st2, h1, h2, h3⟩ := ih st st' tail f h
+        have hs : ∃ c w, s.toList = c :: w ∧ Lex.isIdStart c = true ∧
+            ∀ x ∈ w, Lex.isIdCont x = true := by
+          simp only [plainId] at hp
+          cases hh : s.toList with
+          | nil => rw [hh] at hp; simp at hp
+          | cons c w =>
+            rw [hh] at hp
+            simp only [Bool.and_eq_true, List.all_eq_true] at hp
+            exact ⟨c, w, rfl, hp.1, hp.2⟩
+        obtain ⟨c, w, hcw, hc, hw⟩ := hs
+        have hstr : String.ofList (c :: w) = s := by rw [← hcw]; exact String.ofList_toList
+        refine ⟨(K.ident s, ?n1) :: toks, st2, by simp [h1], h2, ?_⟩
+        rotate_left
+        have e : steps (K.ident s :: ks) + f = (steps ks + f + 1) + 1 := by
+          simp [steps, Print.sepAfter]; omega
+        rw [e]
+        simp only [Print.renderCanon, Print.spell, Print.sepAfter, hcw, List.cons_append,
+          List.append_assoc, List.nil_append]
+        rw [lexCore_leaf c _ (leafStart_idStart hc)]
+        have := lexLeaf_ident c w (Print.renderCanon ks ++ tail) hc hw
+        simp only [List.cons_append] at this
+        rw [this]
+        simp only []
+        rw [lexCore_space, h3, map_cons_map, hstr]
+        all_goals rfl
+      · cases h
+    | int v =>
+      simp only [chk] at h
+      obtain ⟨toks, st2, h1, h2, h3⟩ := ih st st' tail f h
+      refine ⟨(K.int v, ?n2) :: toks, st2, by simp [h1], h2, ?_⟩
+      rotate_left
+      have e : steps (K.int v :: ks) + f = (steps ks + f + 1) + 1 := by
+        simp [steps, Print.sepAfter]; omega
+      rw [e]
+      have hsp := numChars_spelling .dec v
+      have hl := lexLeaf_int .dec (numChars 10 v) hsp (' ' :: (Print.renderCanon ks ++ tail))
+        (intTail_space _)
+      obtain ⟨c, r, hcr, hd⟩ := spelling_head_digit .dec (numChars 10 v) hsp
+        (' ' :: (Print.renderCanon ks ++ tail))
+      have hv : digitsVal 10 0 (numChars 10 v) = v := digitsVal_numChars 10 v (by omega) (by omega)
+      simp only [Base.pre, Base.radix, List.nil_append, hv] at hl hcr
+      have hren : Print.renderCanon (K.int v :: ks) ++ tail
+          = numChars 10 v ++ ' ' :: (Print.renderCanon ks ++ tail) := by
+        simp [Print.renderCanon, Print.spell, Print.sepAfter, Print.decChars, numChars]
+      rw [hren, hcr, lexCore_leaf c r (leafStart_digit hd), ← hcr, hl]
+      simp only []
+      rw [lexCore_space, h3, map_cons_map]
+      all_goals rfl
+    | str s =>
+      simp only [chk] at h
+      obtain ⟨toks, st2, h1, h2, h3⟩ := ih st st' tail f h
+      have hl := lexLeaf_str s.toList (Print.renderCanon ks ++ tail)
+      have hren : Print.renderCanon (K.str s :: ks) ++ tail
+          = Print.spellStr s.toList ++ ' ' :: (Print.renderCanon ks ++ tail) := by
+        simp [Print.renderCanon, Print.spell, Print.sepAfter]
+      obtain ⟨r, hr⟩ : ∃ r, Print.spellStr s.toList ++ ' ' :: (Print.renderCanon ks ++ tail) = '"' :: r :=
+        ⟨_, rfl⟩
+      refine ⟨(K.str s, ?n3) :: toks, st2, by simp [h1], h2, ?_⟩
+      rotate_left
+      have e : steps (K.str s :: ks) + f = (steps ks + f + 1) + 1 := by
+        simp [steps, Print.sepAfter]; omega
+      rw [e, hren]
+      rw [hr] at hl ⊢
+      rw [lexCore_leaf '"' r (by simp [LeafStart]), hl]
+      simp only [String.ofList_toList]
+      rw [lexCore_space, h3, map_cons_map]
+      all_goals rfl
+    | punct c j =>
+      simp only [chk] at h
+      split at h
+      · rename_i hp
+        simp only [Bool.and_eq_true, Bool.or_eq_true, Bool.not_eq_true'] at hp
+        obtain ⟨toks, st2, h1, h2, h3⟩ := ih st st' tail f h
+        cases j with
+        | false =>
+          refine ⟨(K.punct c false, ?n4) :: toks, st2, by simp [h1], h2, ?_⟩
+          rotate_left
+          have e : steps (K.punct c false :: ks) + f = (steps ks + f + 1) + 1 := by
+            simp [steps, Print.sepAfter]; omega
+          rw [e]
+          simp only [Print.renderCanon, Print.spell, Print.sepAfter, List.cons_append,
+            List.append_assoc, List.nil_append]
+          rw [lexCore_leaf c _ (okPunct_facts hp.1).2.2.2.2.2, lexLeaf_punct c hp.1, punctNext_space]
+          simp only []
+          rw [lexCore_space, h3, map_cons_map]
+          all_goals rfl
+        | true =>
+          have hnp : nextPunct ks = true := by simpa using hp.2
+          obtain ⟨c', j', ks', hks, hp2⟩ : ∃ c' j' ks', ks = K.punct c' j' :: ks' ∧ okPunct c' = true := by
+            cases ks with
+            | nil => simp [nextPunct] at hnp
+            | cons k' ks' =>
+              cases k' with
+              | punct c' j' => exact ⟨c', j', ks', rfl, by simpa [nextPunct] using hnp⟩
+              | ident _ => simp [nextPunct] at hnp
+              | int _ => simp [nextPunct] at hnp
+              | str _ => simp [nextPunct] at hnp
+              | lit => simp [nextPunct] at hnp
+              | op _ => simp [nextPunct] at hnp
+              | cl _ => simp [nextPunct] at hnp
+          refine ⟨(K.punct c true, ?n5) :: toks, st2, by simp [h1], h2, ?_⟩
+          rotate_left
+          have e : steps (K.punct c true :: ks) + f = (steps ks + f) + 1 := by
+            simp [steps, Print.sepAfter]; omega
+          rw [e]
+          have hren : Print.renderCanon (K.punct c true :: ks) ++ tail
+              = c :: c' :: (Print.sepAfter (K.punct c' j') ++ Print.renderCanon ks' ++ tail) := by
+            rw [hks]; simp [Print.renderCanon, Print.spell, Print.sepAfter]
+          have hren2 : Print.renderCanon ks ++ tail
+              = c' :: (Print.sepAfter (K.punct c' j') ++ Print.renderCanon ks' ++ tail) := by
+            rw [hks]; simp [Print.renderCanon, Print.spell]
+          rw [hren, lexCore_leaf c _ (okPunct_facts hp.1).2.2.2.2.2, lexLeaf_punct c hp.1,
+            punctNext_okPunct hp2]
+          simp only []
+          rw [← hren2, h3, map_cons_map]
+          all_goals rfl
+      · cases h
+    | op d =>
+      simp only [chk] at h
+      have h' : chk (((d, (Print.renderCanon ks ++ tail).length + 2) :: st).map (·.1)) ks = some st' := by
+        simpa using h
+      obtain ⟨toks, st2, h1, h2, h3⟩ := ih _ st' tail f h'
+      refine ⟨(K.op d, ?n6) :: toks, st2, by simp [h1], h2, ?_⟩
+      rotate_left
+      have e : steps (K.op d :: ks) + f = (steps ks + f + 1) + 1 := by
+        simp [steps, Print.sepAfter]; omega
+      rw [e]
+      simp only [Print.renderCanon, Print.spell, Print.sepAfter, List.cons_append,
+        List.append_assoc, List.nil_append]
+      rw [lexCore_open, lexCore_space, h3, map_cons_map]
+      all_goals rfl
+    | cl d =>
+      cases st with
+      | nil => simp [chk] at h
+      | cons p st0 =>
+        obtain ⟨d', n⟩ := p
+        simp only [List.map_cons, chk] at h
+        by_cases hd : d' = d
+        · subst hd
+          simp only [if_true] at h
+          obtain ⟨toks, st2, h1, h2, h3⟩ := ih st0 st' tail f h
+          refine ⟨(K.cl d', ?n9) :: toks, st2, by simp [h1], h2, ?_⟩
+          rotate_left
+          have e : steps (K.cl d' :: ks) + f = (steps ks + f + 1) + 1 := by
+            simp [steps, Print.sepAfter]; omega
+          rw [e]
+          simp only [Print.renderCanon, Print.spell, Print.sepAfter, List.cons_append,
+            List.nil_append]
+          rw [lexCore_close, lexCore_space, h3, map_cons_map]
+          all_goals rfl
+        · simp [hd] at h
+
+open Print (digitsLE digitChar Base)
+
+/-! ## the printer's output passes `chk` -/
+
+theorem chk_ident (st : List Delim) (s : String) (r : List K) (h : plainId s = true) :
+    chk st (.ident s :: r) = chk st r := by simp [chk, h]
+
+theorem chk_punct (st : List Delim) (c : Char) (r : List K) (h : okPunct c = true) :
+    chk st (.punct c false :: r) = chk st r := by simp [chk, h]
+
+theorem chk_joint (st : List Delim) (c c' : Char) (j : Bool) (r : List K) (h : okPunct c = true)
+    (h' : okPunct c' = true) :
+    chk st (.punct c true :: .punct c' j :: r) = chk st (.punct c' j :: r) := by
+  simp [chk, h, nextPunct, h']
+
+theorem chk_int (st : List Delim) (v : Nat) (r : List K) : chk st (.int v :: r) = chk st r := by
+  simp [chk]
+
+theorem chk_str (st : List Delim) (s : String) (r : List K) : chk st (.str s :: r) = chk st r := by
+  simp [chk]
+
+theorem chk_op (st : List Delim) (d : Delim) (r : List K) : chk st (.op d :: r) = chk (d :: st) r := by
+  simp [chk]
+
+theorem chk_cl (st : List Delim) (d : Delim) (r : List K) : chk (d :: st) (.cl d :: r) = chk st r := by
+  simp [chk]
+
+theorem plainId_of_idOk {s : String} (h : idOk s = true) : plainId s = true := by
+  simp [idOk] at h; exact h.2
+
+theorem plainId_of_nameOk {s : String} (h : nameOk s = true) : plainId s = true := by
+  simp only [nameOk, Bool.or_eq_true, beq_iff_eq] at h
+  rcases h with h | h
+  · subst h; decide
+  · exact plainId_of_idOk h
+
+/-- `chk` runs through the tokens `ks` without changing the stack -/
+def Passes (ks : List K) : Prop := ∀ (st : List Delim) (r : List K), chk st (ks ++ r) = chk st r
+
+theorem passes_nil : Passes [] := fun _ _ => rfl
+
+theorem passes_append {a b : List K} (ha : Passes a) (hb : Passes b) : Passes (a ++ b) := by
+  intro st r
+  rw [List.append_assoc, ha, hb]
+
+theorem passes_ident {s : String} (h : plainId s = true) : Passes [.ident s] :=
+  fun st r => chk_ident st s r h
+
+theorem passes_punct {c : Char} (h : okPunct c = true) : Passes [.punct c false] :=
+  fun st r => chk_punct st c r h
+
+theorem passes_int (v : Nat) : Passes [.int v] := fun st r => chk_int st v r
+theorem passes_str (s : String) : Passes [.str s] := fun st r => chk_str st s r
+
+theorem passes_joint2 {c c' : Char} (h : okPunct c = true) (h' : okPunct c' = true) :
+    Passes [.punct c true, .punct c' false] := by
+  intro st r
+  simp only [List.cons_append, List.nil_append]
+  rw [chk_joint st c c' false r h h', chk_punct st c' r h']
+
+theorem passes_cons {k : K} {ks : List K} (hk : Passes [k]) (hks : Passes ks) : Passes (k :: ks) :=
+  passes_append hk hks
+
+theorem passes_group {ks : List K} (d : Delim) (h : Passes ks) : Passes (.op d :: ks ++ [.cl d]) := by
+  intro st r
+  simp only [List.cons_append, List.append_assoc, List.nil_append]
+  rw [chk_op, h, chk_cl]
+
+theorem passes_pTerm {α : Type} (pr : α → List K) (sep : Char) (tr : Bool) (xs : List α)
+    (hs : okPunct sep = true) (h : ∀ x ∈ xs, Passes (pr x)) : Passes (Print.pTerm pr sep tr xs) := by
+  induction xs with
+  | nil => exact passes_nil
+  | cons x xs ih =>
+    have hx := h x (by simp)
+    have ih' := ih (fun y hy => h y (by simp [hy]))
+    cases xs with
+    | nil =>
+      cases tr with
+      | false => simpa [Print.pTerm] using hx
+      | true => simpa [Print.pTerm] using passes_append hx (passes_punct hs)
+    | cons y ys =>
+      simp only [Print.pTerm]
+      exact passes_append hx (passes_cons (passes_punct hs) ih')
+
+theorem passes_pGroup {α : Type} (d : Delim) (pr : α → List K) (sep : Char) (tr : Bool)
+    (xs : List α) (hs : okPunct sep = true) (h : ∀ x ∈ xs, Passes (pr x)) :
+    Passes (Print.pGroup d pr sep tr xs) := by
+  simp only [Print.pGroup]
+  exact passes_group d (passes_pTerm pr sep tr xs hs h)
+
+theorem passes_flatMap {α : Type} (pr : α → List K) (xs : List α) (h : ∀ x ∈ xs, Passes (pr x)) :
+    Passes (xs.flatMap pr) := by
+  induction xs with
+  | nil => exact passes_nil
+  | cons x xs ih =>
+    simp only [List.flatMap_cons]
+    exact passes_append (h x (by simp)) (ih (fun y hy => h y (by simp [hy])))
+
+theorem kw (s : String) (h : plainId s = true := by decide) : Passes [.ident s] := passes_ident h
+theorem pu (c : Char) (h : okPunct c = true := by decide) : Passes [.punct c false] := passes_punct h
+
+theorem passes_pTy (t : G.Ty) (h : tyOk t = true) : Passes (Print.pTy t) := by
+  induction t with
+  | ident s =>
+    simp only [tyOk, Bool.and_eq_true] at h
+    exact passes_ident (plainId_of_idOk h.1)
+  | unk n =>
+    exact passes_cons (kw "unknown") (passes_cons (pu '<') (passes_cons (passes_int n) (pu '>')))
+  | cptr t ih => exact passes_cons (pu '*') (passes_cons (kw "const") (ih h))
+  | mptr t ih => exact passes_cons (pu '*') (passes_cons (kw "mut") (ih h))
+  | arr t n ih =>
+    simp only [tyOk, Bool.and_eq_true] at h
+    have : Print.pTy (.arr t n) = .op .bracket :: (Print.pTy t ++ [.punct ';' false, .int n]) ++ [.cl .bracket] := by
+      simp [Print.pTy]
+    rw [this]
+    exact passes_group _ (passes_append (ih h.1) (passes_cons (pu ';') (passes_int n)))
+
+theorem passes_pExpr (e : G.Expr) (h : exprOk e = true) : Passes (Print.pExpr e) := by
+  cases e with
+  | ident s => exact passes_ident (plainId_of_idOk h)
+  | str s => exact passes_str s
+  | int z =>
+    simp only [Print.pExpr]
+    split
+    · exact passes_cons (pu '-') (passes_int _)
+    · exact passes_int _
+
+theorem passes_pAttrPart (tr : Bool) (a : G.Attr) (h : attrOk a = true) :
+    Passes (Print.pAttrPart tr a) := by
+  cases a with
+  | ident n => exact passes_ident (plainId_of_nameOk h)
+  | assign n e =>
+    simp only [attrOk, Bool.and_eq_true] at h
+    exact passes_cons (passes_ident (plainId_of_nameOk h.1)) (passes_cons (pu '=') (passes_pExpr e h.2))
+  | fn n args =>
+    simp only [attrOk, Bool.and_eq_true, List.all_eq_true] at h
+    exact passes_cons (passes_ident (plainId_of_nameOk h.1))
+      (passes_pGroup _ _ _ _ _ (by decide) (fun x hx => passes_pExpr x (h.2 x hx)))
+
+theorem passes_pAttr (inner tr : Bool) (a : G.Attr) (h : attrOk a = true) :
+    Passes (Print.pAttr inner tr a) := by
+  simp only [Print.pAttr]
+  refine passes_cons (pu '#') (passes_append ?_ (passes_pGroup _ _ _ _ _ (by decide) ?_))
+  · cases inner
+    · exact passes_nil
+    · exact pu '!'
+  · intro x hx; simp at hx; subst hx; exact passes_pAttrPart tr x h
+
+theorem passes_pAttrs (inner tr : Bool) (as : List G.Attr) (h : as.all attrOk = true) :
+    Passes (Print.pAttrs inner tr as) := by
+  simp only [List.all_eq_true] at h
+  exact passes_flatMap _ _ (fun a ha => passes_pAttr inner tr a (h a ha))
+
+theorem passes_pVis (v : G.Vis) : Passes (Print.pVis v) := by
+  cases v
+  · exact kw "pub"
+  · exact passes_nil
+
+theorem passes_pArg (a : G.Arg) (h : argOk a = true) : Passes (Print.pArg a) := by
+  cases a with
+  | constSelf => exact passes_cons (pu '&') (kw "self")
+  | mutSelf => exact passes_cons (pu '&') (passes_cons (kw "mut") (kw "self"))
+  | named n t =>
+    simp only [argOk, Bool.and_eq_true] at h
+    exact passes_cons (passes_ident (plainId_of_idOk h.1)) (passes_cons (pu ':') (passes_pTy t h.2))
+
+theorem passes_pRet (r : Option G.Ty) (h : retOk r = true) : Passes (Print.pRet r) := by
+  cases r with
+  | none => exact passes_nil
+  | some t =>
+    have : Print.pRet (some t) = [.punct '-' true, .punct '>' false] ++ Print.pTy t := rfl
+    rw [this]
+    exact passes_append (passes_joint2 (by decide) (by decide)) (passes_pTy t h)
+
+theorem passes_pFunc (tr : Bool) (f : G.Func) (h : funcOk f = true) : Passes (Print.pFunc tr f) := by
+  simp only [funcOk, Bool.and_eq_true, List.all_eq_true] at h
+  obtain ⟨⟨⟨hn, ha⟩, hargs⟩, hret⟩ := h
+  simp only [Print.pFunc]
+  refine passes_append (passes_append (passes_pAttrs _ _ _ (by simpa [List.all_eq_true] using ha))
+    (passes_pVis _)) (passes_cons (kw "fn") (passes_cons (passes_ident (plainId_of_nameOk hn)) ?_))
+  exact passes_append (passes_pGroup _ _ _ _ _ (by decide) (fun x hx => passes_pArg x (hargs x hx)))
+    (passes_pRet _ hret)
+
+open Print (digitsLE digitChar Base)
+
+theorem passes_pFuncs (tr : Bool) (d : Delim) (fns : List G.Func) (h : fns.all funcOk = true) :
+    Passes (Print.pGroup d (Print.pFunc tr) ';' tr fns) := by
+  simp only [List.all_eq_true] at h
+  exact passes_pGroup _ _ _ _ _ (by decide) (fun x hx => passes_pFunc tr x (h x hx))
+
+theorem passes_pField (tr : Bool) (fl : G.Field) (h : fieldOk fl = true) :
+    Passes (Print.pField tr fl) := by
+  cases fl with
+  | vftable fns => exact passes_cons (kw "vftable") (passes_pFuncs tr _ fns h)
+  | field v n t =>
+    simp only [fieldOk, Bool.and_eq_true] at h
+    exact passes_append (passes_pVis v)
+      (passes_cons (passes_ident (plainId_of_nameOk h.1.1)) (passes_cons (pu ':') (passes_pTy t h.2)))
+
+theorem passes_pStmt (tr : Bool) (s : G.Stmt) (h : stmtOk s = true) : Passes (Print.pStmt tr s) := by
+  simp only [stmtOk, Bool.and_eq_true] at h
+  exact passes_append (passes_pAttrs _ _ _ h.1) (passes_pField tr _ h.2)
+
+theorem passes_pOptExpr (e : Option G.Expr) (h : optExprOk e = true) : Passes (Print.pOptExpr e) := by
+  cases e with
+  | none => exact passes_nil
+  | some e => exact passes_cons (pu '=') (passes_pExpr e h)
+
+theorem passes_pEnumStmt (tr : Bool) (s : G.EnumStmt) (h : enumStmtOk s = true) :
+    Passes (Print.pEnumStmt tr s) := by
+  simp only [enumStmtOk, Bool.and_eq_true] at h
+  exact passes_append (passes_pAttrs _ _ _ h.2)
+    (passes_cons (passes_ident (plainId_of_nameOk h.1.1)) (passes_pOptExpr _ h.1.2))
+
+theorem passes_pItemDef (tr : Bool) (i : G.Item) (h : itemOk i = true) :
+    Passes (Print.pItemDef tr i) := by
+  obtain ⟨vis, name, inner⟩ := i
+  simp only [itemOk, Bool.and_eq_true] at h
+  cases inner with
+  | type d =>
+    simp only [innerOk, Bool.and_eq_true, List.all_eq_true] at h
+    simp only [Print.pItemDef]
+    exact passes_append (passes_append (passes_pAttrs _ _ _ (by simpa [List.all_eq_true] using h.2.1))
+      (passes_pVis _)) (passes_cons (kw "type") (passes_cons (passes_ident (plainId_of_nameOk h.1))
+        (passes_pGroup _ _ _ _ _ (by decide) (fun x hx => passes_pStmt tr x (h.2.2 x hx)))))
+  | enum d =>
+    simp only [innerOk, Bool.and_eq_true, List.all_eq_true] at h
+    simp only [Print.pItemDef]
+    exact passes_append (passes_append (passes_pAttrs _ _ _ (by simpa [List.all_eq_true] using h.2.1.1))
+      (passes_pVis _)) (passes_cons (kw "enum") (passes_cons (passes_ident (plainId_of_nameOk h.1))
+        (passes_cons (pu ':') (passes_append (passes_pTy _ h.2.1.2)
+          (passes_pGroup _ _ _ _ _ (by decide) (fun x hx => passes_pEnumStmt tr x (h.2.2 x hx)))))))
+
+theorem passes_pImpl (tr : Bool) (i : G.Impl) (h : implOk i = true) : Passes (Print.pImpl tr i) := by
+  simp only [implOk, Bool.and_eq_true] at h
+  exact passes_append (passes_pAttrs _ _ _ h.1.2)
+    (passes_cons (kw "impl") (passes_cons (passes_ident (plainId_of_nameOk h.1.1))
+      (passes_pFuncs tr _ _ h.2)))
+
+theorem passes_pXType (tr : Bool) (x : String × List G.Attr) (h : xtypeOk x = true) :
+    Passes (Print.pXType tr x) := by
+  simp only [xtypeOk, Bool.and_eq_true] at h
+  exact passes_append (passes_pAttrs _ _ _ h.2)
+    (passes_cons (kw "extern") (passes_cons (kw "type")
+      (passes_cons (passes_ident (plainId_of_idOk h.1)) (pu ';'))))
+
+theorem passes_pXVal (tr : Bool) (x : G.XVal) (h : xvalOk x = true) : Passes (Print.pXVal tr x) := by
+  simp only [xvalOk, Bool.and_eq_true] at h
+  simp only [Print.pXVal]
+  exact passes_append (passes_append (passes_pAttrs _ _ _ h.2) (passes_pVis _))
+    (passes_cons (kw "extern") (passes_cons (passes_ident (plainId_of_nameOk h.1.1))
+      (passes_cons (pu ':') (passes_append (passes_pTy _ h.1.2) (pu ';')))))
+
+theorem passes_pPath (p : Path) (h : pathOk p = true) : Passes (Print.pPath p) := by
+  induction p with
+  | nil => exact passes_nil
+  | cons s p ih =>
+    simp only [pathOk, List.all_cons, Bool.and_eq_true] at h
+    cases p with
+    | nil => exact passes_ident (plainId_of_idOk h.1)
+    | cons t q =>
+      have : Print.pPath (s :: t :: q) = .ident s :: ([.punct ':' true, .punct ':' false] ++ Print.pPath (t :: q)) := rfl
+      rw [this]
+      exact passes_cons (passes_ident (plainId_of_idOk h.1))
+        (passes_append (passes_joint2 (by decide) (by decide)) (ih (by simpa [pathOk] using h.2)))
+
+theorem passes_pUse (p : Path) (h : pathOk p = true) : Passes (Print.pUse p) :=
+  passes_cons (kw "use") (passes_append (passes_pPath p h) (pu ';'))
+
+theorem passes_pBlock (kwd : String) (hk : plainId kwd = true) (o : Option String) :
+    Passes (Print.pBlock kwd o) := by
+  cases o with
+  | none => exact passes_nil
+  | some s => exact passes_cons (passes_ident hk) (passes_cons (passes_str s) (pu ';'))
+
+theorem passes_pBackend (b : G.Backend) (h : backendOk b = true) : Passes (Print.pBackend b) := by
+  simp only [backendOk, Bool.and_eq_true] at h
+  have : Print.pBackend b = .ident "backend" :: .ident b.name ::
+      (.op .brace :: (Print.pBlock "prologue" b.prologue ++ Print.pBlock "epilogue" b.epilogue) ++ [.cl .brace]) := by
+    simp [Print.pBackend]
+  rw [this]
+  exact passes_cons (kw "backend") (passes_cons (passes_ident (plainId_of_nameOk h.1.1))
+    (passes_group _ (passes_append (passes_pBlock _ (by decide) _) (passes_pBlock _ (by decide) _))))
+
+theorem passes_printK (tr : Bool) (m : G.Module) (h : wfB m = true) : Passes (Print.printK tr m) := by
+  simp only [wfB, Bool.and_eq_true, List.all_eq_true] at h
+  obtain ⟨⟨⟨⟨⟨⟨h0, h1⟩, h2⟩, h3⟩, h4⟩, h5⟩, h6⟩ := h
+  simp only [Print.printK]
+  refine passes_append (passes_append (passes_append (passes_append (passes_append (passes_append
+    (passes_pAttrs _ _ _ (by simpa [List.all_eq_true] using h0)) ?_) ?_) ?_) ?_) ?_) ?_
+  · exact passes_flatMap _ _ (fun x hx => passes_pUse x (h1 x hx))
+  · exact passes_flatMap _ _ (fun x hx => passes_pXType tr x (h2 x hx))
+  · exact passes_flatMap _ _ (fun x hx => passes_pXVal tr x (h3 x hx))
+  · exact passes_flatMap _ _ (fun x hx => passes_pItemDef tr x (h4 x hx))
+  · exact passes_flatMap _ _ (fun x hx => passes_pImpl tr x (h5 x hx))
+  · exact passes_flatMap _ _ (fun x hx => passes_pBackend x (h6 x hx))
+
+theorem chk_printK (tr : Bool) (m : G.Module) (h : wfB m = true) :
+    chk [] (Print.printK tr m) = some [] := by
+  have := passes_printK tr m h [] []
+  simpa [chk] using this
+
+open Print (digitsLE digitChar Base)
+
+
+/-- the spelling of a token that `chk` accepts starts with an ASCII character -/
+theorem spell_head (st : List Delim) (k : K) (ks : List K) (st' : List Delim)
+    (h : chk st (k :: ks) = some st') : ∃ c r, Print.spell k = c :: r ∧ c.toNat < 128 := by
+  cases k with
+  | lit => simp [chk] at h
+  | ident s =>
+    simp only [chk] at h
+    split at h
+    · rename_i hp
+      simp only [plainId] at hp
+      cases hh : s.toList with
+      | nil => rw [hh] at hp; simp at hp
+      | cons c w =>
+        rw [hh] at hp
+        simp only [Bool.and_eq_true] at hp
+        have := (isIdStart_iff c).1 hp.1
+        exact ⟨c, w, by simp [Print.spell, hh], by omega⟩
+    · cases h
+  | int v =>
+    obtain ⟨c, r, hcr, hd⟩ := spelling_head_digit .dec (numChars 10 v) (numChars_spelling .dec v) []
+    simp only [Base.pre, List.nil_append, List.append_nil] at hcr
+    have := (isDigit_iff c).1 hd
+    exact ⟨c, r, by simpa [Print.spell, Print.decChars, numChars] using hcr, by omega⟩
+  | str s => exact ⟨'"', _, rfl, by decide⟩
+  | punct c j =>
+    simp only [chk] at h
+    split at h
+    · rename_i hp
+      simp only [Bool.and_eq_true] at hp
+      have := (okPunct_facts hp.1).2.2.2.2.2
+      simp only [LeafStart] at this
+      exact ⟨c, [], rfl, by omega⟩
+    · cases h
+  | op d => cases d <;> exact ⟨_, [], rfl, by decide⟩
+  | cl d => cases d <;> exact ⟨_, [], rfl, by decide⟩
+
+theorem chk_tail (st : List Delim) (k : K) (ks : List K) (st' : List Delim)
+    (h : chk st (k :: ks) = some st') : ∃ st1, chk st1 ks = some st' := by
+  cases k with
+  | lit => simp [chk] at h
+  | ident s => simp only [chk] at h; split at h; exact ⟨_, h⟩; cases h
+  | int v => exact ⟨_, by simpa [chk] using h⟩
+  | str s => exact ⟨_, by simpa [chk] using h⟩
+  | punct c j => simp only [chk] at h; split at h; exact ⟨_, h⟩; cases h
+  | op d => exact ⟨_, by simpa [chk] using h⟩
+  | cl d =>
+    cases st with
+    | nil => simp [chk] at h
+    | cons d' st0 =>
+      simp only [chk] at h
+      split at h
+      · exact ⟨_, h⟩
+      · cases h
+
+theorem steps_le (ks : List K) : ∀ (st st' : List Delim), chk st ks = some st' →
+    steps ks ≤ (Print.renderCanon ks).length := by
+  induction ks with
+  | nil => intro _ _ _; simp [steps]
+  | cons k ks ih =>
+    intro st st' h
+    obtain ⟨c, r, hcr, _⟩ := spell_head st k ks st' h
+    obtain ⟨st1, h1⟩ := chk_tail st k ks st' h
+    have := ih st1 st' h1
+    simp only [steps, Print.renderCanon, List.length_append, hcr, List.length_cons]
+    omega
+
+theorem stripBom_render (ks : List K) (st st' : List Delim) (h : chk st ks = some st') :
+    Lex.stripBom (Print.renderCanon ks) = Print.renderCanon ks := by
+  cases ks with
+  | nil => rfl
+  | cons k ks =>
+    obtain ⟨c, r, hcr, hc⟩ := spell_head st k ks st' h
+    simp only [Print.renderCanon, hcr, List.cons_append, Lex.stripBom, beq_iff_eq]
+    rw [if_neg (by omega)]
+
+/-- lexing the canonical rendering of a token list that passes `chk` gives the tokens back -/
+theorem lexL_render (ks : List K) (h : chk [] ks = some []) :
+    ∃ ts, Lex.lexL (Print.renderCanon ks) = .ok ts ∧ ts.map (·.k) = ks := by
+  have hs := steps_le ks [] [] h
+  obtain ⟨toks, st2, h1, h2, h3⟩ := lexCore_render ks [] [] []
+    ((Print.renderCanon ks).length + 1 - steps ks) (by simpa using h)
+  have hst2 : st2 = [] := by simpa using h2
+  subst hst2
+  have hf : steps ks + ((Print.renderCanon ks).length + 1 - steps ks)
+      = (Print.renderCanon ks).length + 1 := by omega
+  rw [hf, List.append_nil] at h3
+  obtain ⟨g, hg⟩ : ∃ g, (Print.renderCanon ks).length + 1 - steps ks = g + 1 :=
+    ⟨(Print.renderCanon ks).length - steps ks, by omega⟩
+  have hnil : Lex.lexCore (g + 1) [] [] = .ok [] := rfl
+  rw [hg, hnil] at h3
+  simp only [Except.map, List.append_nil] at h3
+  refine ⟨toks.map fun p => ⟨p.1, Lex.posOfRem (Print.renderCanon ks) p.2⟩, ?_, ?_⟩
+  · simp only [Lex.lexL, stripBom_render ks [] [] h, h3]
+  · simp only [List.map_map]
+    rw [← h1]
+    apply List.map_congr_left
+    intro p _
+    rfl
 
 end C18
 end PyxisVerif
